@@ -30,6 +30,9 @@ Opts == {[v |-> TRUE, ws |-> TRUE, nl |-> TRUE]}
 Init == \E gg \in 1..NG : \E bytes \in Strings(Alpha(gg), L) : \E o \in Opts : D!Init0(gg, bytes, o)
 Next == D!DNext
 Spec == Init /\ [][Next]_vars
+\* C06 (termination): under weak fairness of the step relation every parse of a finite input ends
+FairSpec == Spec /\ WF_vars(Next)
+Terminates == <>(status # "run")
 
 (************************* oracles ****************************************)
 \* tokens of the input, independent of the driver: <<ok, token sequence>>
